@@ -309,11 +309,24 @@ func (s *expSession) opDataUnknown(i int, op plan.Op) {
 		return
 	}
 	id := uint16(256 + slot)
-	sp := catalog[0]
-	ie, _ := registry.GetInfoElement(sp.Name, sp.Ent)
+	// the record has the shape of a template that IS known (op.B = its slot) when there is one:
+	// field count and lengths are right, only the template id was never announced
+	specs := []elemSpec{catalog[0]}
+	if t, ok := s.tmpls[int(op.B)]; ok && op.B >= 0 {
+		specs = t.Specs
+	}
+	r := rand.New(rand.NewPCG(uint64(op.C), 0xda7b))
+	elems := make([]entities.InfoElementWithValue, len(specs))
+	for k, sp := range specs {
+		e, err := registry.GetInfoElement(sp.Name, sp.Ent)
+		if err != nil {
+			panic(err)
+		}
+		elems[k] = mkElement(sp, e, genWire(r, sp, 8))
+	}
 	s.set.ResetSet()
 	s.set.PrepareSet(entities.Data, id)
-	s.set.AddRecord([]entities.InfoElementWithValue{mkElement(sp, ie, make([]byte, int(sp.Len)))}, id)
+	s.set.AddRecord(elems, id)
 	s.send(callRec{Op: i, Kind: "dataunk", Slot: slot, Expect: "error", Why: "no template with that id was sent"})
 }
 
